@@ -64,6 +64,7 @@ FUNCS = [  # (lean name, file, class, method, translator key, lean type)
     ("diagram", "statemachine/contrib/diagram.py", None, "diagram", "diagram", "G.DiagramScript"),
     ("engBase", "statemachine/engines/base.py", None, "eng", "eng", "E.EngScript"),
     ("factory", "statemachine/factory.py", None, "factory", "factory", "F.FactoryScript"),
+    ("specs", "statemachine/callbacks.py", None, "specs", "specs", "P.SpecScript"),
 ]
 ASYNC_DEF = {"activateAsync", "triggerAsync", "processAsync", "wrapperDunder", "execAsyncCall", "execAsyncAll"}
 
@@ -2007,6 +2008,83 @@ def tr_factory(repo):
             + ",\n  updateEventReferences := " + uer + ",\n  setup := " + setup + " }")
 
 
+# ----------------------------------------------------------------------------------------- callback specs
+
+def tr_spec(repo):
+    M = lambda rel, cls, name: method(repo, rel, cls, name)
+    cb = "statemachine/callbacks.py"
+    # Transition._setup
+    fn = M("statemachine/transition.py", "Transition", "_setup")
+    env = {}
+    ts = []
+
+    def conv(call_group, args, scoped_name=None):
+        m = re.match(r"^(f?)'([^']*)', priority=CallbackPriority\.(\w+), is_convention=True(, cond=SAME)?$", args)
+        if not m:
+            raise Untranslatable(f"_setup: arguments {args!r}")
+        name = m.group(2)
+        name = re.sub(r"\{(EVENT|self\.id)\}", "*", name)
+        return f'⟨"{call_group}", "{name}", "{m.group(3)}", {B(bool(m.group(4)))}⟩'
+    for x in _body(fn):
+        t = ntext(x, env)
+        m = re.match(r"^(\w+) = self\.(before|on|after)\.add$", t)
+        if m:
+            bind(env, m.group(1), m.group(2).upper() + "ADD")
+            continue
+        m = re.match(r"^(BEFORE|ON|AFTER)ADD\((.*)\)$", t, flags=re.S)
+        if m:
+            ts.append(conv(m.group(1).lower(), m.group(2)))
+            continue
+        if isinstance(x, ast.For) and ntext(x.iter, env) == "self._events" and isinstance(x.target, ast.Name) and not x.orelse:
+            le = dict(env)
+            le[x.target.id] = "EVENT"
+            for b in x.body:
+                bt = ntext(b, le)
+                m = re.match(r"^(\w+) = EVENT\.is_same_event$", bt)
+                if m:
+                    le[m.group(1)] = "SAME"
+                    continue
+                m = re.match(r"^(BEFORE|ON|AFTER)ADD\((.*)\)$", bt, flags=re.S)
+                if m:
+                    ts.append(conv(m.group(1).lower(), m.group(2)))
+                    continue
+                raise Untranslatable(f"Transition._setup: loop statement at line {b.lineno}: {bt!r}")
+            continue
+        raise Untranslatable(f"Transition._setup: statement at line {x.lineno} not recognised: {t!r}")
+    fn = M("statemachine/state.py", "State", "_setup")
+    ss = []
+    for x in _body(fn):
+        t = ntext(x)
+        m = re.match(r"^self\.(enter|exit)\.add\((.*)\)$", t, flags=re.S)
+        if not m:
+            raise Untranslatable(f"State._setup: statement at line {x.lineno} not recognised: {t!r}")
+        ss.append(conv(m.group(1), m.group(2)))
+    tree = ast.parse(open(os.path.join(repo, cb)).read())
+    prios = None
+    for c in tree.body:
+        if isinstance(c, ast.ClassDef) and c.name == "CallbackPriority":
+            prios = [(a.targets[0].id, a.value.value) for a in c.body
+                     if isinstance(a, ast.Assign) and isinstance(a.value, ast.Constant)]
+    if not prios:
+        raise Untranslatable("CallbackPriority: members")
+    if _stmts(M(cb, "CallbackSpec", "__eq__"),
+              {"return self.func == other.func and self.group == other.group and (self.expected_value == other.expected_value)": "k"},
+              "CallbackSpec.__eq__") != "[k]":
+        raise Untranslatable("CallbackSpec.__eq__")
+    la = _stmts(M(cb, "CallbackSpecList", "_add"),
+                {"if isinstance(func, CallbackSpec):\n    spec = func\nelse:\n    spec = self.factory(func, group, **kwargs)": ".specOrBuild",
+                 "if spec in self.items:\n    return": ".returnIfEqualSpecPresent",
+                 "self.items.append(spec)": ".append",
+                 "if spec.is_convention:\n    self.conventional_specs.add(spec.func)": ".noteConvention",
+                 "return spec": ".ret"}, "CallbackSpecList._add")
+    key_ok = _stmts(M(cb, "CallbackGroup", "build_key"), {"return f'{self.name}@{id(specs)}'": "k"}, "CallbackGroup.build_key") == "[k]"
+    fn = M("statemachine/event.py", "Event", "is_same_event")
+    same_ok = _stmts(fn, {"return self == event": "k"}, "Event.is_same_event") == "[k]"
+    pr = "[" + ", ".join(f'("{n}", {v})' for n, v in prios) + "]"
+    return ("{\n  transitionSetup := [" + ", ".join(ts) + "],\n  stateSetup := [" + ", ".join(ss) + "],\n  priorities := " + pr
+            + ",\n  specEq := .funcGroupExpected, listAdd := " + la + f",\n  groupKeyPerOwnerList := {B(key_ok)}, sameEventIsEquality := {B(same_ok)} }}")
+
+
 TRANSLATORS = {"eventcall": tr_eventcall, "send": tr_send, "start": tr_start, "injected": tr_injected,
                "activate": tr_activate, "trigger": tr_trigger, "process": tr_process, "wrapper": tr_wrapper,
                "executor": tr_executor, "bind": tr_bind,
@@ -2058,6 +2136,9 @@ def translate(repo):
                 continue
             if key == "factory":
                 res[name] = (ty, tr_factory(repo), None)
+                continue
+            if key == "specs":
+                res[name] = (ty, tr_spec(repo), None)
                 continue
             if key == "injected":
                 if [ast.unparse(d) for d in fn.decorator_list] != ["property"]:
@@ -2203,6 +2284,13 @@ SELFTEST_EDITS = [
     ("statemachine/factory.py", "            \"send\",\n", ""),
     ("statemachine/factory.py", "        if not hasattr(cls, id):\n            setattr(cls, id, state)", "        setattr(cls, id, state)"),
     ("statemachine/factory.py", "                cls.add_state(state.id, state, inherited=True)", "                cls.add_state(state.id, state)"),
+    ("statemachine/transition.py", "                f\"on_{event}\",\n                priority=CallbackPriority.NAMING,\n                is_convention=True,\n                cond=same_event_cond,", "                f\"on_{event}\",\n                priority=CallbackPriority.NAMING,\n                is_convention=True,"),
+    ("statemachine/transition.py", "            priority=CallbackPriority.AFTER,", "            priority=CallbackPriority.GENERIC,"),
+    ("statemachine/callbacks.py", "            and self.expected_value == other.expected_value\n", ""),
+    ("statemachine/callbacks.py", "        if spec in self.items:\n            return\n", ""),
+    ("statemachine/callbacks.py", "    NAMING = 30", "    NAMING = 15"),
+    ("statemachine/event.py", "        return self == event\n", "        return event is None or self == event\n"),
+    ("statemachine/state.py", "        self.exit.add(f\"on_exit_{self.id}\", priority=CallbackPriority.NAMING, is_convention=True)", "        self.exit.add(f\"on_exit_{self.id}\", priority=CallbackPriority.GENERIC, is_convention=True)"),
 ]
 
 
@@ -2246,6 +2334,7 @@ import SMV.Src.IRDecl
 import SMV.Src.IRDiagram
 import SMV.Src.IREng
 import SMV.Src.IRFactory
+import SMV.Src.IRSpec
 /-! GENERATED by `harness/srcgen.py --write-expected` from the tree the theorems of `SMV/Src/Tie.lean` were
 proved for. Do not edit by hand. -/
 """
